@@ -1,4 +1,3 @@
-use crate::common::constant::DEFAULT_NAMESPACE_ARC_STRING;
 use crate::namespace::is_default_namespace;
 use bitflags::bitflags;
 use serde::{Deserialize, Serialize};
@@ -188,10 +187,22 @@ impl NamespacePrivilegeGroup {
 
     pub fn check_permission(&self, key: &Arc<String>) -> bool {
         if is_default_namespace(key.as_str()) {
-            self.0.check_permission(&DEFAULT_NAMESPACE_ARC_STRING)
+            // the default namespace has two names, "" and "public";
+            // a list names it with whichever of the two it holds
+            let at_whitelist =
+                self.0.whitelist_is_all || Self::has_default_namespace(&self.0.whitelist);
+            let at_blacklist =
+                self.0.blacklist_is_all || Self::has_default_namespace(&self.0.blacklist);
+            at_whitelist && !at_blacklist
         } else {
             self.0.check_permission(key)
         }
+    }
+
+    fn has_default_namespace(list: &Option<Arc<HashSet<Arc<String>>>>) -> bool {
+        list.as_ref()
+            .map(|list| list.iter().any(|e| is_default_namespace(e.as_str())))
+            .unwrap_or(false)
     }
 
     pub fn check_option_value_permission(
